@@ -152,7 +152,10 @@ def run(rep: vk.Report):
             if r.random() < 0.3:
                 cf = np.array([r.choice([1, 2, 3, 5]) + j for j in range(x.size)], dtype=r.choice([np.uint8, np.uint16, np.int32]))
             obj = r.choice([lambda: cf @ x + const, lambda: const - cf @ x, lambda: (const + 1) - x.sum(), lambda: x @ cf - const,
-                            lambda: const + 2 * x.sum(), lambda: cf @ x[::-1] + const])()
+                            lambda: const + 2 * x.sum(), lambda: cf @ x[::-1] + const,
+                            # coefficients / divisors written as constant-valued EXPRESSIONS (whatever route the library takes for them)
+                            lambda: (cf @ x) / (gen.Constant(2.0) * 2) + const + x[0], lambda: x[0] / (gen.Constant(4.0) / 2) + cf @ x + const,
+                            lambda: x.sum() / (-gen.Constant(2.0)) + const - x[0] * (gen.Constant(3.0) / gen.Constant(2.0))])()
             if r.random() < 0.4:
                 # a variable whose net coefficient is zero everywhere and that has no bounds: it is still a variable of the model
                 dead = gen.Variable(r.choice(["zz_dead", "a_dead"]))
@@ -180,7 +183,8 @@ def run(rep: vk.Report):
         steps = ["solve"]
         for _ in range(r.randint(0, 2)):
             steps.append(r.choice(["flip_same_object", "flip_same_object", "resolve", "new_objective_same_sense", "add_constraint",
-                                   "rejected_opposite_setter", "rejected_opposite_setter"]))
+                                   "rejected_opposite_setter", "rejected_opposite_setter", "add_constraint_new_variable_in_front",
+                                   "add_constraint_new_variable_in_front"]))
         cur_mx = mx
         for step in steps:
             if step == "flip_same_object":
@@ -191,6 +195,10 @@ def run(rep: vk.Report):
                 (P.maximize if cur_mx else P.minimize)(nobj)
             elif step == "add_constraint":
                 P.subject_to(x[0] <= 2.5)
+            elif step == "add_constraint_new_variable_in_front":
+                # the new constraint brings a variable that sorts BEFORE the objective's: every column of the objective moves right
+                slack = gen.Variable(r.choice(["a0_slack", "A_slack", "_s"]), lb=0.0, ub=1.0)
+                P.subject_to(slack + x[0] <= 2.75)
             elif step == "rejected_opposite_setter":
                 # a call that is REJECTED (not an expression) must change nothing - in particular not the orientation
                 try:
